@@ -547,6 +547,23 @@ def wide_target(rng, d):
     return prior, like
 
 
+def edge_target(rng, d, coords):
+    """posterior mass piled up at the faces of the given (periodic / reflective) coordinates, so that accepted moves cross them"""
+    s2 = rng.uniform(0.1, 0.4)
+    mu = np.array([rng.uniform(-1.0, 1.0) for _ in range(d)])
+    cs = set(coords)
+
+    def prior(u):
+        return 8.0 * u - 4.0
+
+    def like(x):
+        t = 0.0
+        for i in range(d):
+            t += (min(abs(float(x[i]) - 4.0), abs(float(x[i]) + 4.0)) ** 2) if i in cs else (float(x[i]) - mu[i]) ** 2
+        return -0.5 * t / s2
+    return prior, like
+
+
 def gen_config(rng, i, vv_choices=(0.5, 0.3, 0.2, 0.1), narrow=True):
     """one configuration of the lattice kernel x resampler x clustering x reweighting mode x boundary kind x target.
     The first four are cycled (every combination appears), the rest is drawn."""
@@ -589,6 +606,9 @@ def gen_config(rng, i, vv_choices=(0.5, 0.3, 0.2, 0.1), narrow=True):
         periodic, reflective = [idx[0]], [idx[1]]
     elif bk == "mixed":
         bk = "hard"
+    if bk != "hard" and not bimodal and hole in (False, True) and rng.random() < 0.5:
+        hole = "edge"
+        prior, like = edge_target(rng, d, (periodic or []) + (reflective or []))
     # an integer ess_ratio makes ESS = target an exact tie at warm-up iteration k = ess_ratio; in dynamic mode that tie decides
     # whether the run leaves beta = 0 at all, so it is avoided there (in ESS mode both outcomes give beta = 0)
     ess_ratio = rng.choice([1.5, 2.5, 1.7]) if vv is not None else rng.choice([1.5, 2.0, 3.0])
@@ -605,7 +625,8 @@ def _tags(c, meta, rec):
     c.count("mode_vv" if meta["volume_variation"] is not None else "mode_ess")
     c.count("boundary_" + meta["boundary"])
     c.count("target_bimodal" if meta["bimodal"] else ("target_thin_support" if meta["hole"] == "thin" else
-            ("target_weak(one-step to beta=1)" if meta["hole"] == "weak" else ("target_wide(tight vv)" if meta["hole"] == "wide" else
+            ("target_edge(mass at a folded face)" if meta["hole"] == "edge" else
+             "target_weak(one-step to beta=1)" if meta["hole"] == "weak" else ("target_wide(tight vv)" if meta["hole"] == "wide" else
              ("target_hole" if meta["hole"] else "target_plain")))))
     bs = [it["beta"] for it in rec.impl]
     c.count("runs_beta_0_to_1_in_one_step", int(any(a == 0.0 and b == 1.0 for a, b in zip(bs, bs[1:]))))
@@ -619,8 +640,20 @@ def _tags(c, meta, rec):
     c.count("iterations_with_K>=2", sum(1 for it in ann if it.get("K", 1) >= 2))
     c.count("iterations_steps_above_minimum", sum(1 for it in ann if it["nsteps"] > meta["n_steps"] * meta["d"]))
     c.count("out_of_cube_proposals", sum(int(np.sum(~_inb(rec, st))) for it in ann for st in it["steps"]))
+    c.count("accepted_moves_across_a_folded_face", sum(int(np.sum(np.asarray(m) & _crossed(rec, st))) for it in ann
+                                                       for m, st in zip(it["masks"], it["steps"])))
     c.count("minus_inf_proposals", sum(int(np.sum(np.isneginf(st["lp"]))) for it in ann for st in it["steps"]))
     c.count("accepted_moves", sum(int(np.sum(m)) for it in ann for m in it["masks"]))
+
+
+def _crossed(rec, st):
+    """walkers whose raw proposal left [0,1] in a folded coordinate: detected from the folded candidate being far from the start"""
+    c = rec.s._core.config
+    folded = [int(i) for i in (list(c.periodic) if c.periodic is not None else []) + (list(c.reflective) if c.reflective is not None else [])]
+    cand = np.array(st["cand"])
+    if not folded or cand.size == 0:
+        return np.zeros(len(cand), dtype=bool)
+    return np.any((cand[:, folded] < 0.03) | (cand[:, folded] > 0.97), axis=1)
 
 
 def _inb(rec, st):
